@@ -126,28 +126,36 @@ def snapshot(v, memo=None, depth=3):
     return s
 
 
-def _collect_ids(v, acc, seen=None, depth=6):
-    """ids of every container / object reachable before the call (for is_fresh)."""
+_KEEP = []
+
+
+def _collect_ids(v, acc, seen=None, depth=6, keep=None):
+    """ids of every container / object reachable before the call (for is_fresh).  Every visited object is kept
+    alive in `keep` until the postcondition has been evaluated: a temporary met on the way (the argument tuple,
+    a list built by a property) would otherwise be freed at once, and an allocation made by the call could
+    reuse its address and be taken for an old object."""
     seen = set() if seen is None else seen
+    keep = _KEEP if keep is None else keep
     if isinstance(v, (int, float, str, bool, type(None))) or id(v) in seen or depth <= 0:
         return
     seen.add(id(v))
+    keep.append(v)
     if isinstance(v, (list, tuple)):
         acc.add(id(v))
         for x in v:
-            _collect_ids(x, acc, seen, depth - 1)
+            _collect_ids(x, acc, seen, depth - 1, keep)
     elif isinstance(v, dict):
         acc.add(id(v))
         for x in v.values():
-            _collect_ids(x, acc, seen, depth - 1)
+            _collect_ids(x, acc, seen, depth - 1, keep)
     elif isinstance(v, type):
         if hasattr(v, '_components'):
-            _collect_ids(v._components, acc, seen, depth - 1)
+            _collect_ids(v._components, acc, seen, depth - 1, keep)
     elif _is_repo_obj(v):
         acc.add(id(v))
         for n in _attr_names(v):
             try:
-                _collect_ids(getattr(v, n), acc, seen, depth - 1)
+                _collect_ids(getattr(v, n), acc, seen, depth - 1, keep)
             except AttributeError:
                 pass
 
@@ -296,7 +304,10 @@ def make_wrapper(key, cands, real, props):
         CURRENT[key] = True
         memo = {}
         old = S.Old(**{k: snapshot(v, memo) for k, v in env.items()})
-        _collect_ids(tuple(env.values()), old.ids__)
+        old.keep__ = []
+        _seen = set()
+        for _v in list(env.values()):
+            _collect_ids(_v, old.ids__, _seen, 6, old.keep__)
         em = memo.pop('elems__', {})
         while 'elems__' in em:
             em.update(em.pop('elems__'))
